@@ -142,6 +142,17 @@ def generate(g, tier):
         cases.append(dict(op='cli', home_cfg=None, files={'proj/s.txt': text}, cfgs={}, pre_files={},
                           invocations=[dict(cmd='compile', file='proj/s.txt', output='o.txt', stack_limit=lim)],
                           meta=dict(family='compile', steps=[dict(expect='ok', out=[f'STRING {i}' for i in range(lim // 2 - 1)])], nocorr=True, slow=True)))
+    # the same unchanged source compiled again to the SAME output path with other options: the file holds what THIS compilation produced
+    for _ in range(count(tier, 20, 120)):
+        text = 'REM note\nSTRING body\nIF TRUE\n    IF TRUE\n        IF TRUE\n            IF TRUE\n                IF TRUE\n                    STRING deep'
+        c1, c2 = r.sample([dict(comments=True), dict(comments=False), dict(stack_limit=5), dict(stack_limit=50, comments=True), dict()], 2)
+        def expect2(o):
+            if o.get('stack_limit') == 5: return dict(expect='fail', cls='StackOverflowError', line=7, prints=[])
+            return dict(expect='ok', out=(['REM note'] if o.get('comments') else []) + ['STRING body', 'STRING deep'])
+        invs = [dict(cmd='compile', file='proj/s.txt', output='out.txt', **c1), dict(cmd='compile', file='proj/s.txt', output='out.txt', **c2)]
+        if g.chance(0.4): invs.append(dict(cmd='compile', file='proj/s.txt', output='out.txt', **c1))
+        steps = [expect2(c1), expect2(c2)] + ([expect2(c1)] if len(invs) == 3 else [])
+        cases.append(dict(op='cli', home_cfg=None, files={'proj/s.txt': text}, cfgs={}, pre_files={}, invocations=invs, meta=dict(family='compile', steps=steps, nocorr=True)))
     for _ in range(count(tier, 30, 200)):
         name = r.choice(['demo', 'My Project', 'x1', 'a-b', 'UPPER', 'bad_name', 'é'])
         path = r.choice([None, 'sub', 'deep/er'])
